@@ -60,8 +60,16 @@ def gen_molecules(rng):
     rs = rng.choice([None, None, 1, 2, 3, [1, 2], [2, 4], [3, 3], [0, n]])
     dk = rng.choice(["none", "neg1", "negvar", "negvar", "list"])
     default = None if dk == "none" else ([-1] * n if dk == "neg1" else [-(i % 5) - 1 for i in range(n)])
-    return {"kind": "molecules", "symbols": sym, "positions": pos, "cell": [L, L, L], "pbc": pbc, "cutoff": cutoff,
+    case = {"kind": "molecules", "symbols": sym, "positions": pos, "cell": [L, L, L], "pbc": pbc, "cutoff": cutoff,
             "required_size": rs, "default": default, "default_as_array": dk == "negvar" and rng.random() < 0.6}
+    r2 = random.Random(int(pos[0][0] * 1e6) ^ n)
+    if default is not None and r2.random() < 0.35:
+        # every entry of the supplied default below -1 (e.g. -2 = "not yet classified"): admitted molecules still get labels >= 0
+        case["default"] = [-(i % 4) - 2 for i in range(n)] if r2.random() < 0.5 else [-100] * n
+        case["default_as_array"] = r2.random() < 0.6
+        if r2.random() < 0.7:
+            case["required_size"] = None      # (so that molecules are admitted)
+    return case
 
 
 def components(case):
